@@ -337,7 +337,16 @@ Record cw_shape (cs : list col) (div minw focus maxcol : Z) (F : list Z)
   sh_sum_eq : Exists (fun c => is_weight c = true) kept -> zsum F + div * zlen kept = maxcol + div;
   sh_focus_in : focus < zlen dr + zlen kept;
   sh_focus_kept : forall c, nthz cs focus = Some c -> static_of minw c <= maxcol -> zlen dr <= focus;
-  sh_nonneg : Forall (fun x => 0 <= x) F
+  sh_nonneg : Forall (fun x => 0 <= x) F;
+  (* how the weighted columns that are kept got their widths: [l] is the sorted (weight, index)
+     list, [al] the (index, width) assignments in the same order; either nothing was left to
+     distribute (all stay at min_width) or al is what the sharing loop computed *)
+  sh_alloc : exists l al,
+      Permutation (weighted_of kept (zlen dr)) l /\ asc l /\ map fst al = map snd l /\
+      (forall p, In p al -> nthz F (fst p) = Some (snd p)) /\
+      (Forall (fun p => snd p = minw) al \/
+       (cw_alloc minw l (zsum (map snd al)) (zsum (map fst l)) = Ok al /\
+        zlen l * minw <= zsum (map snd al) /\ l <> []))
 }.
 
 Lemma Exists_weight_not_nil kept i :
@@ -422,6 +431,16 @@ Proof.
       destruct c as [[] a]; cbn in Hw; try discriminate; reflexivity.
     + lia.
     + intros _. lia.
+    + exists (sort_pairs wt2), (map (fun p => (snd p, minw)) (sort_pairs wt2)).
+      split; [subst wt2; apply sort_pairs_perm|]. split; [apply sort_pairs_asc|].
+      split; [rewrite map_map; reflexivity|]. split.
+      * intros p Hp. apply in_map_iff in Hp. destruct Hp as [[w j] [<- Hin]]. cbn [fst snd].
+        apply (Permutation_in _ (Permutation_sym (sort_pairs_perm wt2))) in Hin. subst wt2.
+        pose proof (weighted_of_static minw _ _ _ Hin) as Hs. cbn [snd] in Hs.
+        pose proof (weighted_of_ge _ _ _ Hin) as Hge. cbn [snd] in Hge.
+        subst ws2. rewrite nthz_app_r by (rewrite zlen_repeat; unfold zlen in *; lia).
+        rewrite zlen_repeat. replace (Z.of_nat (length dr)) with (zlen dr) by reflexivity. exact Hs.
+      * left. rewrite Forall_map. apply Forall_forall. intros; reflexivity.
   - (* share sh2 + k*minw among the weighted columns kept *)
     set (wtotal := zsum (map fst wt2)). set (grow := sh2 + zlen wt2 * minw).
     assert (Hperm : Permutation wt2 (sort_pairs wt2)) by apply sort_pairs_perm.
@@ -489,6 +508,17 @@ Proof.
            subst wt2. revert Hperm. now apply Exists_weight_not_nil.
       * apply apply_allocs_Forall; [assumption|].
         eapply Forall_impl; [|exact Halmin]. cbn. intros; lia.
+      * exists (sort_pairs wt2), al. split; [subst wt2; exact Hperm|]. split; [apply sort_pairs_asc|].
+        split; [exact Hidx|]. split.
+        -- intros [j v] Hp. cbn [fst snd]. apply apply_allocs_in; try assumption.
+           pose proof (Hal_base _ Hp) as Hb. cbn [fst] in Hb. apply nthz_range in Hb. exact Hb.
+        -- destruct (sort_pairs wt2) as [|p0 l0] eqn:El.
+           ++ left. destruct al; [constructor|discriminate].
+           ++ right. rewrite <- El in *. assert (Hne : sort_pairs wt2 <> []) by (rewrite El; discriminate).
+              rewrite (Halsum Hne). split; [|split; [|exact Hne]].
+              ** replace (zsum (map fst (sort_pairs wt2))) with wtotal; [exact Hal|].
+                 subst wtotal. apply zsum_perm. now apply Permutation_map.
+              ** subst grow. rewrite <- (perm_zlen _ _ Hperm). lia.
 Qed.
 
 Corollary column_widths_shape cs div minw focus maxcol F :
